@@ -9,6 +9,8 @@ proof:   EpsieProps/C14.lean (partial: exact-arithmetic invariants and bounds; I
          C14_at_shape_admissible, C14_at_scale_admissible, C14_eig_cov_admissible, C14_vmf_kappa_pos,
          C14_vmf_no_raise, C14_vmf_logkappa_bounded, C14_vmf_logkappa_representable, C14_vmf_exact_never_raises,
          and C14_at_stall_exact / C14_at_stall_witness / C14_vmf_norm_underflow_witness
+         (a quarter of the search runs and a third of the correspondence cases reset the adaptation with
+         Chain.reset_proposals() once or twice on the way)
 tie:     suite `adapt` (values of every scale attribute, raises included; every class also with its optional
          constructor arguments at non-default values, the model's constants taken from the case's
          configuration) + draws per jump counted by a counting wrapper around the generator
